@@ -202,7 +202,7 @@ cleanup(void)
 int
 main(void)
 {
-  strcpy(base, "/tmp/zixc14.XXXXXX");
+  snprintf(base, sizeof(base), "%s/zixc14.XXXXXX", getenv("VERIF_SCRATCH") ? getenv("VERIF_SCRATCH") : "/tmp");
   if (!mkdtemp(base)) {
     perror("mkdtemp");
     return 2;
